@@ -260,6 +260,18 @@ class Runner:
         self.sig.append(("core", "edge"))
         return True
 
+    def caller_dict_is_not_the_model(self, k, obj, arg, op, lvl):
+        """What the caller does with its own dict after the call is none of the model's business."""
+        got0 = {n: float(obj.getNumberDensity(n)) for n in arg}
+        for n in list(arg):
+            arg[n] = 0.123456
+        for n in got0:
+            got = float(obj.getNumberDensity(n))
+            if not rel(got, got0[n]):
+                self.fail("C02.readback", f"step {k}: after {op} at {lvl} level the caller changed its own dict and {n} now reads {got} instead of {got0[n]}", what="aliased-argument", op=op, level=lvl)
+                return
+        self.probe("caller_dict_mutated_after_call")
+
     def apply(self, k, st):
         if st["op"] == "edge":
             return self.edge(k, st)
@@ -290,7 +302,9 @@ class Runner:
             others_unchanged({nuc}, op)
         elif op == "updateNumberDensities":
             new = {nuc: before[nuc] * st["f"] if before[nuc] else 2e-4, nuc2: before[nuc2] * 0.5 if before[nuc2] else 3e-4}
-            obj.updateNumberDensities(dict(new))
+            arg = dict(new)
+            obj.updateNumberDensities(arg)
+            self.caller_dict_is_not_the_model(k, obj, arg, op, lvl)
             for n, v in new.items():
                 got = float(obj.getNumberDensity(n))
                 if not rel(got, v):
@@ -298,7 +312,9 @@ class Runner:
             others_unchanged(set(new), op)
         elif op == "setNumberDensities":
             new = {nuc: before[nuc] * st["f"] if before[nuc] else 2e-4, nuc2: before[nuc2] * 1.5 if before[nuc2] else 3e-4}
-            obj.setNumberDensities(dict(new))
+            arg = dict(new)
+            obj.setNumberDensities(arg)
+            self.caller_dict_is_not_the_model(k, obj, arg, op, lvl)
             after = {n: float(v) for n, v in zip(nucs, obj.getNuclideNumberDensities(nucs))}
             for n in nucs:
                 want = new.get(n, 0.0)
